@@ -72,13 +72,16 @@ Lane2Max(e) == CHOOSE v \in RangeOf(e.lane) : \A w \in RangeOf(e.lane) : v >= w
 Sure(qi) == ~qi.up /\ ~qi.dn /\ ~qi.half        \* position not within rounding error of a breakpoint
 
 (* Beyond 2^53 Linear's documented computation goes through f64: only its exact points are lawful there. *)
-OrdStrats(e) == IF e.big THEN STRATS \ {"linear"} ELSE STRATS
+(* lanes of a signed 8-bit type whose neighbours are more than T::MAX apart: Midpoint is the known finding F6 there and is *)
+(* left out; Linear is lawful for the fractions used (fraction * gap <= T::MAX)                                            *)
+LawStrats(e) == IF Has(e, "nomid") /\ e.nomid THEN STRATS \ {"midpoint"} ELSE STRATS
+OrdStrats(e) == IF e.big THEN LawStrats(e) \ {"linear"} ELSE LawStrats(e)
 
 LawsOn(e, r) ==
     LET nq == Len(e.qs) IN
-    /\ \A s \in STRATS : Len(r[s]) = nq
+    /\ \A s \in LawStrats(e) : Len(r[s]) = nq
     \* end points (integral positions are exact for every strategy)
-    /\ \A s \in STRATS : \A j \in 1..nq :
+    /\ \A s \in LawStrats(e) : \A j \in 1..nq :
           /\ (e.qs[j].int /\ e.qs[j].k = 0) => r[s][j] = Lane2Min(e)
           /\ (e.qs[j].int /\ e.qs[j].k = e.n - 1) => r[s][j] = Lane2Max(e)
     \* bounds
@@ -90,20 +93,21 @@ LawsOn(e, r) ==
     /\ \A j \in 1..nq : Sure(e.qs[j]) =>
           \A s \in OrdStrats(e) \ {"lower", "higher"} : r["lower"][j] <= r[s][j] /\ r[s][j] <= r["higher"][j]
     \* all five coincide when (N-1)q is integral
-    /\ \A j \in 1..nq : (e.qs[j].int) => \A s \in STRATS : r[s][j] = r["lower"][j]
+    /\ \A j \in 1..nq : (e.qs[j].int) => \A s \in LawStrats(e) : r[s][j] = r["lower"][j]
 
 NoFailure(r) == Len(r.failed) = 0
+NoFailureIn(e, r) == \A x \in DOMAIN r.failed : r.failed[x] \notin LawStrats(e)
 
 QLawsEvOK(e) ==
-    /\ NoFailure(e.res) /\ NoFailure(e.perm) /\ NoFailure(e.rel)
+    /\ NoFailureIn(e, e.res) /\ NoFailureIn(e, e.perm) /\ NoFailureIn(e, e.rel)
     /\ LawsOn(e, e.res)
     /\ LawsOn(e, e.perm)
     \* invariance under permutation of the lane (all strategies)
-    /\ \A s \in STRATS : e.perm[s] = e.res[s]
+    /\ \A s \in LawStrats(e) : e.perm[s] = e.res[s]
     \* ... in particular under the permutation left behind by earlier calls on the same object (any strategy, any q),
     \* and for the NaN-skipping form on an object that holds the same values plus NaNs
-    /\ NoFailure(e.seq) /\ \A s \in STRATS : e.seq[s] = e.res[s]
-    /\ NoFailure(e.skip) /\ \A s \in STRATS : e.skip[s] = e.res[s]
+    /\ NoFailureIn(e, e.seq) /\ \A s \in LawStrats(e) : e.seq[s] = e.res[s]
+    /\ NoFailureIn(e, e.skip) /\ \A s \in LawStrats(e) : e.skip[s] = e.res[s]
     \* selecting strategies commute with a strictly increasing relabelling (ranks are unchanged)
     /\ \A s \in {"lower", "higher", "nearest"} : e.rel[s] = e.res[s]
 
